@@ -55,7 +55,8 @@ def _random(rnd):
                        'st0': rnd.random() < 0.3})
     horizon = rnd.randint(4, 20)
     script = [{'t': rnd.randint(0, horizon), 'm': rnd.random() < 0.8, 'tag': rnd.randint(1, 5),
-               'val': rnd.randint(0, 3), 'extra': rnd.choice([0, 0, 1, 2])} for _ in range(rnd.randint(1, 6))]
+               'val': rnd.randint(0, 3), 'extra': rnd.choice([0, 0, 1, 2]),
+               'nosrc': rnd.random() < 0.2} for _ in range(rnd.randint(1, 6))]
     if rnd.random() < 0.35:      # the loop is kept busy for a while (longer than an interval, maybe)
         script.append({'t': rnd.randint(0, horizon), 'stall': rnd.choice([1, 2, 3, 5, 8])})
     script.sort(key=lambda e: e['t'])
@@ -208,7 +209,10 @@ def execute(stim):
                             edzed.ExtEvent(first, 'othertype').send(op['val'], **data)
                     else:
                         et = (blocks[1]['etype'] if nb > 1 else 'ev') if op['m'] else 'othertype'
-                        edzed.ExtEvent(first, et).send(op['val'], **data)
+                        if op.get('nosrc'):
+                            first.event(et, value=op['val'], **data)    # an event without a 'source' item
+                        else:
+                            edzed.ExtEvent(first, et).send(op['val'], **data)
                 except Exception:
                     pass        # the failure is visible in the reception record and Circuit.error
             if circuit.error is None and not task.done():
